@@ -5,11 +5,22 @@
 # block buffer, bit offset, previous value, block -> tail mode switch), theorems coq/Properties_C09_thetawrap.v; harness
 # harness/drv_thetaset.cpp ops 50/51 (exact-size heap copy of the image: ASan sees any read past it).
 #
-# Mutations confirmed caught / harmless rewrites tolerated: see the end of this comment block (filled in after the runs).
+# Mutations of theta_sketch_impl.hpp / compact_theta_sketch_parser_impl.hpp confirmed caught (scratch copies, VERIF_REPO; failing cases of 172, C09 and C10 alike):
+#   w2  unpack8: previous_ restarts at every block (deltas not accumulated across the block boundary)     95  wrap_entries, wrap_vs_eager
+#   w3  unpack1: bit offset off by one after a tail value                                                  57 + 4 ASan reports
+#   w4  operator++: next block fetched at (index & 7) == 7                                                 131 (25 ASan reports)
+#   w5  unpack1 does not record previous_                                                                  62
+#   w6  operator* reads buffer_[index & 3]                                                                 142 (wrap_iterator_copy: operator-> disagrees)
+#   w7  unpack8: ptr_ advances one byte too few for widths > 32                                            39
+#   w8  parser reports every v3 image as ordered                                                           157 wrap_getters
+#   w1b block fetched when only 7 entries remain (switch to the tail one entry LATE)                        25 ASan heap-buffer-overflow reports + 22 mismatches
+# Equivalent mutants / harmless rewrites (0 failing cases, as it should be): switching to the bit-by-bit tail EARLY (w1: `> 8` instead of `>= 8` in
+#   operator++; h1: is_block_mode_(num_entries_ > 8)) — the generic unpack_bits decodes the same big-endian bit stream as the block routines, so any
+#   early switch yields the same entries and reads the same bytes; h2: the accumulation loop of unpack8 rewritten with a running local.
 from fam_thetacodec import py_enc_v3, py_enc_v4, make_entries, le, MAX_THETA, SEED_HASH
 
-READY_C09 = False
-READY_C10 = False
+READY_C09 = True
+READY_C10 = True
 COQ_PROPS_C09 = ['Properties_C09_thetawrap']
 COQ_PROPS_C10 = ['Properties_C09_thetawrap']
 TRANSLATORS = ['gen_bitpacking']
